@@ -9,8 +9,8 @@
 //   segs = <type>:<asn.asn...>;...   attrs = <o><t><p>:<code>:<value hex>;...
 //
 // Observation: "API <dump of the API message> BACK <dump of the route that came back>" in the same
-// notation (API: type/hidden/ltime numbers of the enum; lists of the message: nil = empty = "e"),
-// or PANIC-TO / PANIC-FROM.
+// notation (API: type/hidden numbers of the enums; lists of the message: nil = empty = "e"; BACK:
+// only the fields the property speaks about, see dumpBack), or PANIC-TO / PANIC-FROM.
 //
 // Spec oracle (independent of the Coq model), on well-formed routes only: no panic; prefix, number
 // and type of paths, static next hop and the sixteen BGP attributes of the property come back equal
@@ -637,6 +637,48 @@ func readBack(rr *route.Route) *routeT {
 	return r
 }
 
+// ---- dump of the route that came back: the fields the property speaks about (prefix, type, hidden
+// reason, the part of the path that belongs to its type, the sixteen BGP attributes); LTime,
+// RedistributedFrom, Aggregator, AtomicAggregate and ASPathLen are not part of the observation
+func dumpBack(r *routeT) string {
+	pf := "-"
+	if r.pfx != nil {
+		pf = fmt.Sprintf("%s/%d", fmtIP(r.pfx), r.plen)
+	}
+	s := []string{"pfx=" + pf}
+	for i := range r.paths {
+		p := &r.paths[i]
+		s = append(s, "|", fmt.Sprintf("t=%d h=%d", p.typ, p.hid))
+		if p.typ != route.BGPPathType {
+			st := "-"
+			switch p.st {
+			case 1:
+				st = "~"
+			case 2:
+				st = fmtIP(&p.snh)
+			}
+			s = append(s, "st="+st)
+			continue
+		}
+		b := p.bgp
+		if b == nil {
+			s = append(s, "bgp=-")
+			continue
+		}
+		s = append(s, "bgp=+")
+		if b.a == nil {
+			s = append(s, "a=-")
+		} else {
+			a := b.a
+			s = append(s, "a=+", "nh="+fmtIP(a.nh), "src="+fmtIP(a.src),
+				fmt.Sprintf("lp=%d med=%d id=%d oid=%d ebgp=%s org=%d otc=%d", a.lp, a.med, a.id, a.oid, b01(a.ebgp), a.org, a.otc))
+		}
+		s = append(s, "asp="+fmtSegs(b.asp), "cl="+fmtNums(b.cl), "co="+fmtNums(b.co), "lc="+fmtLC(b.lc), "ua="+fmtUA(b.ua),
+			fmt.Sprintf("pid=%d pp=%s", b.pid, b01(b.pp)))
+	}
+	return strings.Join(s, " ")
+}
+
 // ---- dump of the API message
 
 func fmtAPIIP(i *netapi.IP) string {
@@ -663,7 +705,7 @@ func dumpAPI(a *routeapi.Route) string {
 				st = fmtAPIIP(p.StaticPath.NextHop)
 			}
 		}
-		s = append(s, "|", fmt.Sprintf("t=%d h=%d lt=%d st=%s", int32(p.Type), int32(p.HiddenReason), p.TimeLearned, st))
+		s = append(s, "|", fmt.Sprintf("t=%d h=%d st=%s", int32(p.Type), int32(p.HiddenReason), st))
 		b := p.BgpPath
 		if b == nil {
 			s = append(s, "bgp=-")
@@ -1019,8 +1061,7 @@ func main() {
 				vs = append(vs, viol{"panic-from-proto", fmt.Sprint(val)})
 			}
 		} else {
-			bs := back.String()
-			obs = "API " + dumpAPI(api) + " BACK " + strings.TrimPrefix(bs, "dd=0 ")
+			obs = "API " + dumpAPI(api) + " BACK " + dumpBack(back)
 			if wf {
 				vs = judge(in, api, back)
 			}
